@@ -74,16 +74,17 @@ type c5Seen struct {
 }
 
 type c5Task struct {
-	cap   *[]c5Write // capture of this task's writes to the shared sinks
-	inRef bool
-	seen  []c5Seen
+	scratch []zerolog.Hook
+	cap     *[]c5Write // capture of this task's writes to the shared sinks
+	inRef   bool
+	seen    []c5Seen
 }
 
 type c5Run struct {
-	ch    *zsim.Choices
-	nodes []*c5Node
-	sinks []*c5Sink
-	ctxs  []context.Context
+	ch     *zsim.Choices
+	nodes  []*c5Node
+	sinks  []*c5Sink
+	ctxs   []context.Context
 	tasks  map[int]*c5Task
 	nEv    int
 	single bool
@@ -425,11 +426,18 @@ func (r *c5Run) derive(p *c5Node) *c5Node {
 		return r.addNode(p.lg.Sample(mkSampler(m.sampler)), m, fmt.Sprintf("n%d.Sample(%d)", p.id, m.sampler))
 	case 3:
 		k := 1 + ch.Intn(2)
-		var hs []zerolog.Hook
+		// the caller builds its hook list in a scratch slice that it reuses for the next
+		// derivation (overwriting the elements in place): Hook must not keep that slice
+		// (one scratch slice per task: sharing it between goroutines would be the caller's bug)
+		tk := r.task()
+		if tk.scratch == nil {
+			tk.scratch = make([]zerolog.Hook, 2, 4)
+		}
+		hs := tk.scratch[:k]
 		for i := 0; i < k; i++ {
 			name := fmt.Sprintf("%sh%d", tag, i)
 			m.hooks = append(m.hooks, name)
-			hs = append(hs, c5Hook{r, name})
+			hs[i] = c5Hook{r, name}
 		}
 		return r.addNode(p.lg.Hook(hs...), m, fmt.Sprintf("n%d.Hook(x%d)", p.id, k))
 	case 4:
